@@ -1,25 +1,131 @@
-"""Violation reports and native replay of counterexamples."""
-import json, os, time
+"""Violation reports and native replay of counterexamples against the real code."""
+import glob
+import json
+import os
+import re
+import shutil
+import threading
+
 from . import core
+
+_build_lock = threading.Lock()
+_built = {}
+
+
+def build_native_lib(scratch):
+    """Compile /repo/src/*.cpp (current working tree, hooks on) into a static library in scratch."""
+    with _build_lock:
+        if scratch in _built:
+            return _built[scratch]
+        d = os.path.join(scratch, 'native')
+        os.makedirs(d, exist_ok=True)
+        srcs = sorted(glob.glob(os.path.join(core.REPO, 'src', '*.cpp')))
+        mk = ['all: libcolvars_cv.a\n']
+        objs = []
+        for s in srcs:
+            o = os.path.basename(s)[:-4] + '.o'
+            objs.append(o)
+            mk.append('%s: %s\n\tg++ -std=c++11 -O1 -g -w -DCOLVARS_VERIF -I%s/src -c %s -o %s\n' % (o, s, core.REPO, s, o))
+        mk.append('libcolvars_cv.a: %s\n\tar rcs $@ $^\n' % ' '.join(objs))
+        open(os.path.join(d, 'Makefile'), 'w').write(''.join(mk))
+        rc, out, dt = core.run(['make', '-j', str(core.NCPU), '-C', d], 1200)
+        lib = os.path.join(d, 'libcolvars_cv.a')
+        if rc != 0 or not os.path.exists(lib):
+            _built[scratch] = (None, out[-3000:])
+        else:
+            _built[scratch] = (lib, '')
+        return _built[scratch]
+
+
+def native_replay(unit, task_id, vals, scratch):
+    """Returns dict(status=reproduced|not_reproduced|unavailable|error, output=...)."""
+    drv = os.path.join(unit['dir'], 'replay.cpp')
+    if not os.path.exists(drv):
+        return {'status': 'unavailable', 'output': 'no native replay driver for unit %s' % unit['name']}
+    lib, err = build_native_lib(scratch)
+    if not lib:
+        return {'status': 'error', 'output': 'native build of /repo/src failed:\n' + err}
+    d = os.path.dirname(lib)
+    exe = os.path.join(d, 'replay_' + unit['name'])
+    if not os.path.exists(exe):
+        cmd = ['g++', '-std=c++11', '-O1', '-g', '-w', '-DCOLVARS_VERIF', '-I', os.path.join(core.REPO, 'src'),
+               '-I', os.path.join(core.SPECS, 'common'), '-I', os.path.join(core.REPO, 'misc_interfaces', 'stubs'),
+               drv, lib, '-o', exe]
+        rc, out, dt = core.run(cmd, 600)
+        if rc != 0:
+            return {'status': 'error', 'output': 'replay driver does not compile against the working tree:\n' + out[-3000:]}
+    vf = os.path.join(d, 'vals_%s_%d.txt' % (task_id, threading.get_ident()))
+    with open(vf, 'w') as f:
+        for k, v in sorted(vals.items()):
+            f.write('%s %s\n' % (k, v))
+    rc, out, dt = core.run([exe, task_id, vf], 120, cwd=d)
+    if rc == 1 and 'REPLAY:' in out:
+        st = 'reproduced'
+    elif rc == 0:
+        st = 'not_reproduced'
+    elif rc is None:
+        st = 'reproduced_hang'
+    elif rc == 3:
+        st = 'unavailable'
+    else:
+        st = 'reproduced_crash' if rc < 0 or rc >= 128 else 'error'
+    return {'status': st, 'exit': rc, 'output': out[-4000:]}
+
+
+def clause_text(unit, loc):
+    """Source text of the contract clause at file:line (best effort)."""
+    try:
+        f, ln = loc.rsplit(':', 1)
+        for d in (unit['dir'], os.path.join(core.SPECS, 'common'), core.STUBS):
+            p = os.path.join(d, f)
+            if os.path.exists(p):
+                lines = open(p).read().splitlines()
+                return ' '.join(l.strip() for l in lines[int(ln) - 1:int(ln) + 2])[:400]
+    except Exception:
+        pass
+    return ''
+
 
 def report_violation(prop, unit, r, o, scratch, tier):
     d = os.path.join(core.VERIF, 'replays')
     os.makedirs(d, exist_ok=True)
-    path = os.path.join(d, '%s_%s_%s.json' % (prop, r['task'], o['name'].replace('/', '_')))
+    path = os.path.join(d, '%s_%s_%s.json' % (prop, r['task'], re.sub(r'[^\w.\-]', '_', o['name'])))
     task = [t for t in unit['tasks'] if t['id'] == r['task']][0]
-    trace = core.get_trace(task, r['gb'], os.path.join(scratch, unit['name']), o['name'])
+    usc = os.path.join(scratch, unit['name'])
+    trace = core.get_trace(task, r['gb'], usc, o['name'])
     vals = core.trace_values(trace) if trace else {}
-    echo = {k: v for k, v in vals.items() if k.startswith('e_') or k.startswith('g_')}
+    echo = {k: v for k, v in vals.items() if re.match(r'(e_|g_|h_)', k)}
     doc = {'property': prop, 'unit': unit['name'], 'task': r['task'], 'obligation': o['name'],
-           'obligation_text': o['description'], 'location': o['loc'], 'solver': o['solver'],
-           'counterexample_inputs': echo, 'native_replay': None}
+           'obligation_text': o['description'], 'contract_clause': clause_text(unit, o['loc']),
+           'location': o['loc'], 'solver': o['solver'], 'bounded': r.get('bounded'),
+           'sliced_functions': r.get('slices'),
+           'counterexample_inputs': echo}
     suffix = ''
     if not echo:
         suffix = ' no-failing-input-found'
-        doc['verifier_output'] = 'obligation %s FAILED (%s); no usable model values' % (o['name'], o['solver'])
+        doc['verifier_output'] = ('obligation %s FAILED under %s; the verifier produced no usable model values '
+                                  'for the wrapper inputs' % (o['name'], o['solver']))
+        doc['native_replay'] = {'status': 'unavailable', 'output': 'no counterexample values'}
+    else:
+        try:
+            doc['native_replay'] = native_replay(unit, task.get('replay_task', r['task']), echo, scratch)
+        except Exception as e:  # replay problems never hide the failed obligation
+            doc['native_replay'] = {'status': 'error', 'output': 'replay machinery error: %s' % e}
     json.dump(doc, open(path, 'w'), indent=1)
+    core.log('  replay %s: %s' % (o['name'], doc['native_replay']['status']))
     return path, suffix
 
+
 def cmd_replay(args):
-    print(open(args[0]).read())
-    return 0
+    doc = json.load(open(args[0]))
+    print(json.dumps(doc, indent=1))
+    unit = core.load_unit(doc['unit'])
+    from .cli import mk_scratch
+    sc = mk_scratch()
+    try:
+        res = native_replay(unit, doc['task'], doc.get('counterexample_inputs', {}), sc)
+        print(res['status'])
+        print(res['output'])
+        return 1 if res['status'].startswith('reproduced') else 0
+    finally:
+        shutil.rmtree(sc, ignore_errors=True)
